@@ -9,11 +9,15 @@ PARTIAL = ('proved over the reals for all data sets: whenever line_fit / line_fi
            '(weighted) normal equations, u(a)^2, u(b)^2, r*u(a)*u(b) are the entries of sigma^2 (X^T W X)^-1 (sigma^2 = ssr/df for '
            'OLS/RWLS, 1 for WLS), ssr is the weighted residual sum, N the number of points, df follows the N-2 / given / inf rule; '
            'the fits are total on non-degenerate data; the solution is unique, hence RWLS with equal scale factors = OLS and '
-           'shift/scale equivariance of the OLS values (partial: the weighted fits and the uncertainties only through the sums-level lemma); the extra input of each prediction method has the stated value and '
-           'uncertainty; the returned expression is evaluated by the kernel evaluator, to which the chain rule (C02) applies; '
-           'LineFitWLS/LineFitRWLS.y_from_x never return (refuted, known findings).  Not proved: equivariance of the '
-           'uncertainties and of ssr.  By correspondence / oracle only: the dof of a prediction (Welch-Satterthwaite over one '
-           'ensemble), the WTLS wrapper against type_b.line_fit_wtls (external computation), labels.')
+           'shift/scale equivariance of the OLS values (partial: the weighted fits and the uncertainties only through the '
+           'sums-level lemma); the extra input of each prediction method (all three classes, y_from_x and x_from_y) has the '
+           'stated value and uncertainty, and the RWLS noise scale agrees between y_from_x and x_from_y; y_from_x with a plain '
+           'number, for OLS, WLS and RWLS fit objects (finite dof): value a + b*x + 0, components u(a), x*u(b), u(noise), the '
+           'noise input joins the ensemble of (a,b), and the result keeps the fit\'s dof (C13_one_ensemble_dof: one ensemble, '
+           'one Welch-Satterthwaite term) when its variance is not 0.  Not proved: equivariance of the uncertainties and of '
+           'ssr; the same value/dof statement for x_from_y (its extra input and the shared evaluator only), for uncertain x, '
+           'and for infinite dof.  By correspondence / oracle only: those, the WTLS wrapper against type_b.line_fit_wtls '
+           '(external computation), labels.')
 ASSUMPTIONS = ['rounding error of float arithmetic is not bounded by proof (theorems are over the reals)',
                'type_b.line_fit_wtls is an external computation for this property (its results enter the model as an oracle)',
                'over the reals an infinite df is not a number: statements that divide by df assume a finite df']
@@ -179,11 +183,10 @@ def rand_case(rng):
     else: c['pred'] = None
     if rng.random() < 0.35:
         # 2-4 predictions with plain-number arguments from the same fit object, x_from_y and y_from_x mixed
-        # (y_from_x of the weighted classes is a known finding: not used here)
         c['pred'] = None; m = []
         for _ in range(rng.randint(2, 4)):
-            if cls == 'OLS' and rng.random() < 0.5:
-                m.append(('y_from_x', round(rng.uniform(-10, 10), 2), None))
+            if rng.random() < 0.5:
+                m.append(('y_from_x', round(rng.uniform(-10, 10), 2), extra))
             else:
                 m.append(('x_from_y', [round(a0 + b0 * rng.uniform(-3, 3) + rng.gauss(0, 0.3), 3) for _ in range(rng.randint(1, 4))], extra))
         c['multi'] = m
@@ -191,9 +194,7 @@ def rand_case(rng):
     return c
 
 def is_known(f):
-    m = f.get('method') if isinstance(f, dict) else None
-    if m in ('LineFitWLS.y_from_x', 'LineFitRWLS.y_from_x') and 'TypeError' in str(f.get('failure', '')):
-        return True
+    # the three findings of this property are FIXED: a TypeError from LineFitWLS/LineFitRWLS.y_from_x is a violation again
     return False
 
 def search(rng, tier, broken):
